@@ -28,61 +28,21 @@ impl World {
             self.nontrivial.insert("C07".into());
         }
         let mut truncated = false;
-        for (i, nd) in deltas.iter().enumerate() {
-            let Some(copy) = view.get(&nd.id) else {
-                if c07 {
-                    return Err(self.viol("C07", "C07.unknown_member", format!("n{p} sends a delta about {} it does not hold", nd.id.short())));
-                }
-                continue;
-            };
-            let ns = node.chit.node_state(&nd.id.to_real()).unwrap();
-            let peer_mv = answers.get(&nd.id).map(|f| f.1).unwrap_or(0);
-            if c07 {
-                if scheduled.contains(&nd.id) {
-                    return Err(self.viol("C07", "C07.scheduled_member", format!("n{p} includes {} which is scheduled for deletion", nd.id.short())));
-                }
-                if nd.gc != copy.gc {
-                    return Err(self.viol("C07", "C07.gc", format!("n{p} delta for {} announces watermark {} but the copy's is {}", nd.id.short(), nd.gc, copy.gc)));
-                }
-                if nd.from != 0 && nd.from != peer_mv {
-                    return Err(self.viol("C07", "C07.from", format!("n{p} delta for {} starts at {} (peer announced {})", nd.id.short(), nd.from, peer_mv)));
-                }
-                if nd.kvs.is_empty() {
-                    if nd.has_setmax && nd.max != copy.mv {
-                        return Err(self.viol("C07", "C07.setmax", format!("n{p} SetMaxVersion({}) for {} whose copy is at {}", nd.max, nd.id.short(), copy.mv)));
-                    }
-                } else {
-                    if nd.has_setmax {
-                        return Err(self.viol("C07", "C07.setmax_after_kvs", format!("n{p} emits SetMaxVersion after key-values for {}", nd.id.short())));
-                    }
-                    let mut expect: Vec<(&String, &Entry)> = copy.entries.iter().filter(|(_, e)| e.version > nd.from && e.version <= nd.max).collect();
-                    expect.sort_by_key(|(_, e)| e.version);
-                    let got: Vec<(&String, u64)> = nd.kvs.iter().map(|kv| (&kv.key, kv.version)).collect();
-                    let want: Vec<(&String, u64)> = expect.iter().map(|(k, e)| (*k, e.version)).collect();
-                    if got != want {
-                        let show = |v: &Vec<(&String, u64)>| v.iter().take(8).map(|(k, ver)| format!("{k:?}@{ver}")).collect::<Vec<_>>().join(",");
-                        return Err(self.viol(
-                            "C07",
-                            "C07.slice",
-                            format!("n{p} delta for {} (from {}, max {}) is not the gap-free slice of the copy: sent [{}] copy has [{}]", nd.id.short(), nd.from, nd.max, show(&got), show(&want)),
-                        ));
-                    }
-                    for kv in &nd.kvs {
-                        let vv = ns.get_versioned(&kv.key).unwrap();
-                        if vv.value != kv.value || kind_of(&vv.status) != kv.status {
-                            return Err(self.viol("C07", "C07.entry_altered", format!("n{p} delta for {} carries {:?}@{} differing from the copy", nd.id.short(), kv.key, kv.version)));
-                        }
-                    }
+        if c07 {
+            match crate::c07::check_deltas(&format!("n{p}"), &node.chit, view, &scheduled, answers, &deltas) {
+                Ok(rep) => truncated = rep.truncated,
+                Err((code, detail)) => return Err(self.viol("C07", &code, detail)),
+            }
+        } else {
+            for nd in &deltas {
+                if let Some(copy) = view.get(&nd.id) {
+                    let complete = if nd.kvs.is_empty() { nd.has_setmax || copy.mv <= nd.from } else { nd.max >= copy.entries.values().map(|e| e.version).max().unwrap_or(0) };
+                    truncated |= !complete;
                 }
             }
-            let complete = if nd.kvs.is_empty() { nd.has_setmax || copy.mv <= nd.from } else { nd.max >= copy.entries.values().map(|e| e.version).max().unwrap_or(0) };
-            if !complete {
-                truncated = true;
-                self.stats.inc("probe_mtu_truncation");
-                if i + 1 != deltas.len() && c07 {
-                    return Err(self.viol("C07", "C07.truncated_middle", format!("n{p} truncated {} although more members follow", nd.id.short())));
-                }
-            }
+        }
+        if truncated {
+            self.stats.inc("probe_mtu_truncation");
         }
         // C14: a sender copy that is ahead appears in the delta unless space ran out.
         if c14 {
